@@ -42,7 +42,8 @@ def cases(draw):
 
 def plan(tier):
     n = 800 if tier == "quick" else 30000
-    return [{"kind": "hyp", "name": "instants", "strategy": cases(), "examples": n}]
+    return [{"kind": "hyp", "name": "instants", "strategy": cases(), "examples": n},
+            {"kind": "hyp", "name": "in-place-pairs", "strategy": common.in_place_pairs(cases()), "examples": max(60, n // 16)}]
 
 
 def classify(case):
